@@ -28,6 +28,11 @@ structure TState where
   btn : Nat := 0
   rb : Tree := .nil
   rbn : Nat := 0
+  -- the other operand of `swap` (initially empty, same element pool)
+  bt2 : Tree := .nil
+  btn2 : Nat := 0
+  rb2 : Tree := .nil
+  rbn2 : Nat := 0
   mp : MapSt := {}
   hash : Bool := false
 
@@ -84,8 +89,8 @@ def logS (l : List MEv) : String := "[" ++ ",".intercalate (l.map mevS) ++ "]"
 
 def maxId : Nat := 600
 
-def lowestFree (t : Tree) : Nat :=
-  let used := t.ids.foldl (fun (a : Array Bool) i => if i < a.size then a.set! i true else a)
+def lowestFree (ids : List Nat) : Nat :=
+  let used := ids.foldl (fun (a : Array Bool) i => if i < a.size then a.set! i true else a)
     (Array.replicate (maxId + 2) false)
   ((List.range' 1 (maxId + 1)).find? (fun i => !used[i]!)).getD (maxId + 1)
 
@@ -156,9 +161,12 @@ def tstep (s : TState) (ws : List String) : TState × String :=
         | .erased r => fin ts'.t ts'.size s!"{(r.map (·.id)).getD 0}"
         | .visited r evs => fin ts'.t ts'.size s!"{r} {evsS evs}"
         | .cleared cbs => fin ts'.t ts'.size (showList (cbs.map (·.id)) ++ " p=1")
-    let fresh (id : Nat) : Bool := id ≥ 1 ∧ id ≤ maxId ∧ !(t.ids.contains id)
+    -- ids in use: the tree and its swap partner
+    let aux : Tree := if isRb then s.rb2 else s.bt2
+    let used : List Nat := t.ids ++ aux.ids
+    let fresh (id : Nat) : Bool := id ≥ 1 ∧ id ≤ maxId ∧ !(used.contains id)
     -- element id 0 in an insert: the lowest id that is not in the tree
-    let auto (id : Nat) : Nat := if id = 0 then lowestFree t else id
+    let auto (id : Nat) : Nat := if id = 0 then lowestFree used else id
     match rest with
     | ["ins", id, k] =>
       match id.toNat?, parseInt? k with
@@ -197,7 +205,7 @@ def tstep (s : TState) (ws : List String) : TState × String :=
         match io[r % io.length]? with
         | none => bad
         | some hint =>
-          let x : Elem := { key := k, id := lowestFree t }
+          let x : Elem := { key := k, id := lowestFree used }
           if !fresh x.id then bad else
           if isRb then
             match rbInsertAt hint.id x t with
@@ -223,6 +231,14 @@ def tstep (s : TState) (ws : List String) : TState × String :=
         run (.foreach (d = "fwd") (fun i _ _ => if (i : Int) = k then 7 else 0))
       | none => bad
     | ["clear"] => run .clear
+    | ["swap"] =>
+      -- `cstl_bintree_swap` / `cstl_rbtree_swap`: the two headers trade places (TreeL.Tie3.swap_tie)
+      if isRb then
+        ({ s with rb := s.rb2, rbn := s.rbn2, rb2 := s.rb, rbn2 := s.rbn },
+         "ok | " ++ dumpTree kind s.hash s.rb2 s.rbn2)
+      else
+        ({ s with bt := s.bt2, btn := s.btn2, bt2 := s.bt, btn2 := s.btn },
+         "ok | " ++ dumpTree kind s.hash s.bt2 s.btn2)
     | ["show"] => fin t n "ok" true
     | _ => bad
   | _ => bad
